@@ -195,8 +195,9 @@ type memConn struct {
 	readLimit   int // max bytes per client Read (0 = a whole segment)
 	readWaiters int // client Reads currently blocked
 
-	closeGate    chan struct{} // non-nil: Close blocks on it after taking effect
-	closeWaiting bool
+	closeGate                     chan struct{} // non-nil: Close blocks on it after taking effect
+	preCloseGate, preCloseRelease chan struct{} // non-nil: Close blocks on it before taking effect
+	closeWaiting                  bool
 
 	srvBytes, cliRead int // bytes written by the server / handed to the client
 	cliWrites         int
@@ -283,6 +284,17 @@ func (c *memConn) Write(p []byte) (int, error) {
 }
 
 func (c *memConn) Close() error {
+	// a Close that is slow to start: the caller is held BEFORE the connection is closed (writes still succeed)
+	c.mu.Lock()
+	if pg := c.preCloseGate; pg != nil && !c.cliClosed {
+		c.preCloseGate = nil
+		c.closeWaiting = true
+		c.mu.Unlock()
+		<-pg
+		c.mu.Lock()
+		c.closeWaiting = false
+	}
+	c.mu.Unlock()
 	c.mu.Lock()
 	was := c.cliClosed
 	c.cliClosed = true
@@ -320,6 +332,16 @@ func (c *memConn) holdClose() {
 	c.mu.Unlock()
 }
 
+// holdCloseBefore makes the next Close block before it takes effect, until releaseClose.
+func (c *memConn) holdCloseBefore() {
+	c.mu.Lock()
+	if c.preCloseGate == nil && !c.cliClosed {
+		c.preCloseGate = make(chan struct{})
+		c.preCloseRelease = c.preCloseGate
+	}
+	c.mu.Unlock()
+}
+
 func (c *memConn) closeBlocked() bool {
 	c.mu.Lock()
 	defer c.mu.Unlock()
@@ -330,9 +352,15 @@ func (c *memConn) releaseClose() {
 	c.mu.Lock()
 	g := c.closeGate
 	c.closeGate = nil
+	pg := c.preCloseRelease
+	c.preCloseRelease = nil
+	c.preCloseGate = nil
 	c.mu.Unlock()
 	if g != nil {
 		close(g)
+	}
+	if pg != nil {
+		close(pg)
 	}
 }
 
@@ -342,7 +370,9 @@ func (c *memConn) isClosed() bool {
 	return c.cliClosed
 }
 
-func (c *memConn) LocalAddr() net.Addr  { return &net.TCPAddr{IP: net.IPv4(127, 0, 0, 1), Port: 40000 + c.id} }
+func (c *memConn) LocalAddr() net.Addr {
+	return &net.TCPAddr{IP: net.IPv4(127, 0, 0, 1), Port: 40000 + c.id}
+}
 func (c *memConn) RemoteAddr() net.Addr { return &net.TCPAddr{IP: net.IPv4(10, 0, 0, 1), Port: 80} }
 
 func (c *memConn) SetDeadline(t time.Time) error {
